@@ -1,5 +1,5 @@
 """C04 -- PMarc -pm1-/-pm2- decode every valid stream exactly."""
-import random
+import random, re
 import rtcheck, decgen, common
 import test_enc_pm as gen
 
@@ -10,6 +10,76 @@ ASSUMPTIONS = ["valid stream = serialisation of a description satisfying wf_pm1 
                "this run's correspondence (C output = spec expansion = model output); pm1 outputs below 2^32 bytes"]
 
 
+def pm2_code28_segments(rnd):
+    """Directed family G (audit round): a whole table segment made only of "copy 256 bytes at distance 0" commands
+    (code 28), surrounded by varied data.  With tables renewed at every opportunity (variant bit 1 clear) the segment's
+    code table is the single-code form with count field 29 and minimum length 0 -- the one code table of ten or more
+    codes that is NOT followed by an offset table.  Every command of the segment costs zero bits, so a decoder that
+    reads an offset table there shows it only in what follows the segment: hence the varied tail, whose tables are read
+    at the next re-read point.  (The existing single-28 cases consist of code 28 only: any misreading of their header
+    is invisible.)"""
+    res = []
+    for T in (0, 4096, 8192, 12288):
+        for variant in (0, 4, 1, 8):
+            g = gen.Gen(0x20)
+            if T:
+                gen.pm2_fill(g, T, rnd)
+            for _ in range(16):                       # 16 * 256 = 4096 bytes: exactly the segment [T, T + 4096)
+                g.copy(0, 256)
+            for _ in range(rnd.randrange(20, 60)):
+                gen.pm2_rand_cmd(g, rnd)
+            res.append(("code28-seg@%d" % T, g.line(), variant, g))
+    return res
+
+
+def _strata(tag, extra=None):
+    """the strata a generated case belongs to (quick tier: every stratum keeps at least one representative)"""
+    m = re.match(r"(copy\d+@\d+)-\d+$", tag)
+    if m:
+        return [m.group(1)]
+    m = re.match(r"len(\d+)@(\d+)$", tag)
+    if m:
+        return ["len%s" % m.group(1), "len@%s" % m.group(2)]
+    m = re.match(r"hdr(\d+)$", tag)
+    if m:
+        return ["hdr%s" % m.group(1)]
+    if tag == "rand":
+        return ["rand"]
+    return [tag if extra is None else "%s/%s" % (tag, extra)]
+
+
+def _thr_strata(c):
+    """-pm1- threshold cases: (output position of the copy under test, its distance class, two-byte copy or not)"""
+    m = re.match(r"thr(\d+)([+-]\d+)-", c[0])
+    if not m:
+        return []
+    cm = re.match(r"C(\d+):(\d+)$", c[3].cmds[-4]) if len(c[3].cmds) >= 4 else None
+    if not cm:
+        return []
+    d, ln = int(cm.group(1)), int(cm.group(2))
+    cls = 0 if d < 64 else 1 if d < 576 else 2 if d < 2624 else 3
+    return ["thr@%d/%d/%s" % (int(m.group(1)) + int(m.group(2)), cls, "2" if ln == 2 else "n")]
+
+
+def stratified(cases, total, always, per, strata_of):
+    """cases: shuffled list.  Keeps (1) every case whose tag satisfies `always`, (2) walking the list, every
+    case that belongs to a stratum represented fewer than per(stratum) times so far, (3) the first remaining ones up to
+    `total`.  Same number of cases as the plain prefix this replaces, but no boundary family is left out by chance."""
+    keep, rest, seen = [], [], {}
+    for c in cases:
+        if always(c[0]):
+            keep.append(c)
+            continue
+        st = strata_of(c)
+        if any(seen.get(k, 0) < per(k) for k in st):
+            keep.append(c)
+            for k in st:
+                seen[k] = seen.get(k, 0) + 1
+        else:
+            rest.append(c)
+    return keep + rest[:max(0, total - len(keep))]
+
+
 def run(ctx):
     rnd = random.Random(ctx.seed * 86028121 + 4)
     cases = []
@@ -17,13 +87,20 @@ def run(ctx):
     c1 = gen.gen_pm1(rnd, True)
     if ctx.quick:
         rnd.shuffle(c2); rnd.shuffle(c1)
-        seg = [c for c in c2 if c[0].startswith("single-seg")]
         zt = [c for c in c1 if c[0].startswith("zerotail")]
         core = [c for c in c1 if c[0].startswith("thrcore")]
-        c2, c1 = seg + [c for c in c2 if not c[0].startswith("single-seg")][:350 - len(seg)], \
-            core + zt[:60] + [c for c in c1 if not c[0].startswith(("zerotail", "thrcore"))][:350 - min(60, len(zt))]
+        # (audit round) stratified instead of a plain prefix of the shuffled list: the prefix left whole boundary
+        # families out by chance (e.g. seed 1: no -pm1- case with start header 22, none with a byte block of exactly
+        # 216 / 24 / 11, 2 of the 28 "litpos" cases); still 350 cases per method (+ the thrcore family, kept whole)
+        c2 = stratified(c2, 350, lambda t: t.startswith("single-seg"), lambda k: 2 if k.startswith("copy") else 12 if k == "rand" else 1,
+                        lambda c: _strata(c[0], c[2] if (c[0].startswith("single-") or c[0] == "256-mixed") else None))
+        c1 = core + zt[:60] + stratified([c for c in c1 if not c[0].startswith(("zerotail", "thrcore"))], 350 - min(60, len(zt)),
+                                         lambda t: t.endswith("-classes"),
+                                         lambda k: 12 if k == "rand" else 1,
+                                         lambda c: _strata(c[0]) + _thr_strata(c))
     else:
         c2 = gen.gen_pm2(rnd, False); c1 = gen.gen_pm1(rnd, False)
+    c2 = c2 + pm2_code28_segments(random.Random(ctx.seed * 7919 + 404))      # always, both tiers
     for (tag, line, variant, g) in c2:
         cases.append(("-pm2-", tag, "pm2enc %s %d" % (line, variant)))
     extra = []
